@@ -683,7 +683,8 @@ Section SemProofs.
     assert (Hk : (holdout_k fh <= length y)%nat) by (unfold holdout_k; lia).
     assert (Hkpos : (1 <= holdout_k fh)%nat).
     { unfold holdout_k. pose proof (sorted_lt_last_max fh (zfirst fh) Hfh) as H.
-      destruct fh as [|h0 r]; [congruence|]. specialize (H (or_introl eq_refl)). cbn in H1. cbn in H. lia. }
+      destruct fh as [|h0 r]; [congruence|]. specialize (H (or_introl eq_refl)).
+      unfold zfirst in *. cbn [hd] in *. lia. }
     assert (Hlen : length (stack_train y fh) = (length y - holdout_k fh)%nat).
     { unfold stack_train. rewrite firstn_length. lia. }
     assert (Hpos : forall i, In i (stack_test_pos y fh) ->
